@@ -263,11 +263,16 @@ def unit_c05_sweep():
             cid = interface.create_cid_from_string('d,format,delimited\nf,id,,,,Integer\nf,name\nf,kind\nc,d,DistinctCount,kind %s %d\n' % (op, thr))
             text = "".join(",".join(r) + "\n" for r in rows)
             want = OPS[op](len({r[2] for r in rows if r[0] != "bad"}), thr)
+            # "the rows that reached the check" of *this* data set: an earlier data set read with the same CID (three other kinds) must not count
+            for _ in validio.rows(cid, io.StringIO("7,p,x\n8,q,y\n9,r,z\n"), on_error="yield"): break       # abandoned midway
+            try:
+                for _ in validio.rows(cid, io.StringIO("7,p,x\n8,q,y\n9,r,z\n"), on_error="continue"): pass
+            except errors.CheckError: pass
             try:
                 for _ in validio.rows(cid, io.StringIO(text), on_error="continue"): pass
                 obs = True
             except errors.CheckError: obs = False
-            return None if obs == want else {"expected": "end check %s" % ("passes" if want else "fails"), "observed": "passes" if obs else "fails"}
+            return None if obs == want else {"expected": "end check %s for this data set (after two earlier data sets with other values under the same CID)" % ("passes" if want else "fails"), "observed": "passes" if obs else "fails"}
         return [sweep("C05/sweep/IsUnique and DistinctCount through validio.rows", cases(), check, "bounded",
                       "IsUnique over 1-3 key fields x row sequences of 0-4 rows (0-6 thorough) over a 4-row pool incl. a field-rejected row x 3 modes; DistinctCount 6 operators x thresholds 0-3 x sequences of 0-3 rows",
                       describe=lambda c: {"case": list(c)}, function="checks + validio", unit="C05.sweep")]
